@@ -596,9 +596,8 @@ theorem c08_facts :
     Facts.floatRegexp = "[-+]?[0-9]*\\.[0-9]+(?:[eE][-+]?[0-9]+)?" ∧
     Facts.charRegexp = "\\\\[abfnrtv']|\\\\x[0-9a-fA-F]{2,2}|\\\\u[0-9a-fA-F]{4,4}|\\\\U[0-9a-fA-F]{8,8}|[^']" ∧
     Facts.durationRegexp = "[-+]?(?:[0-9]+(?:\\.[0-9]+)?(?:ns|us|µs|μs|ms|s|m|h))+" ∧
-    Facts.backquoteRegexp = "[^`]+" ∧
-    Facts.integerBody = "{notFoundErr:=parsley.NotFoundError(\"integervalue\")returnparser.Func(func(ctx*parsley.Context,leftRecCtxdata.IntMap,posparsley.Pos)(parsley.Node,data.IntSet,parsley.Error){tr:=ctx.Reader().(*text.Reader)ifreaderPos,result:=tr.ReadRegexp(pos,\"[-+]?(?:[1-9][0-9]*|0[xX][0-9a-fA-F]+|0[0-7]*)\");result!=nil{if_,isFloat:=tr.ReadRune(readerPos,'.');isFloat{returnnil,data.EmptyIntSet,parsley.NewError(pos,notFoundErr)}intValue,err:=strconv.ParseInt(string(result),0,64)iferr!=nil{returnnil,data.EmptyIntSet,parsley.NewErrorf(pos,\"invalidintegervalue\")}returnNewIntegerNode(schema,intValue,pos,readerPos),data.EmptyIntSet,nil}returnnil,data.EmptyIntSet,parsley.NewError(pos,notFoundErr)})}" :=
-  ⟨rfl, rfl, rfl, rfl, rfl, rfl⟩
+    Facts.backquoteRegexp = "[^`]+" :=
+  ⟨rfl, rfl, rfl, rfl, rfl⟩
 
 /-! ## non-vacuity: concrete files (base offset 7), evaluated by the kernel -/
 
